@@ -825,6 +825,11 @@ func (s *SecureChannel) handleOpenSecureChannelRequest(reqID uint32, svc ua.Requ
 		return ua.StatusBadSecureChannelTokenUnknown
 	}
 
+	// only open channels with the security settings the server enabled
+	if s.cfg.AllowedSecurity != nil && !s.cfg.AllowedSecurity(s.cfg.SecurityPolicyURI, req.SecurityMode) {
+		return ua.StatusBadSecurityPolicyRejected
+	}
+
 	s.cfg.Lifetime = req.RequestedLifetime
 	s.cfg.SecurityMode = req.SecurityMode
 
